@@ -16,7 +16,7 @@ ID = "C18"
 LEVEL = "exploration"
 RULE = ("expressions over sums, products, calls (positional/keyword, tuple-valued arguments), powers (exponent 2/3 or a variable), "
         "nested to depth<=4 with repeated subterms, x EVERY subset of their variables (<=5) as the free set; "
-        "quotients/subscripts/conditionals only in a separate non-deciding class. Each result is evaluated at "
+        "every eighth expression also has quotients, conditionals, max/min. Each result is evaluated at "
         "6 valuations x 2 function tables. distinct = canonical JSON of (expression, free set); non-trivial = "
         "the expression has an operator and at least one variable")
 ASSUMPTIONS = [
@@ -229,7 +229,10 @@ def run_shard(shard, rec):
         if size(expr) > 60:
             continue
         vs = sorted(variables(expr))
-        deciding = not has(expr, {"/", "if", "max", "min", "cmp", "sub"})
+        # (quotients, conditionals, max/min and comparisons were a non-deciding class at first; they never
+        # disagreed on the unchanged tree and decide since round 12.  A valuation at which either side has no
+        # value -- a constant hoisted out of a branch that is not taken may divide by zero -- is skipped)
+        deciding = not has(expr, {"sub"})
         for r in range(len(vs) + 1):
             for free in itertools.combinations(vs, r):
                 check(expr, list(free), rec, deciding,
